@@ -406,6 +406,7 @@ def rewrite(text: str, pat: str, repl: str, nested: bool = True, max_rounds: int
 # statement-level helpers on a function body
 
 LOG_MACROS = {"trace", "debug", "info", "warn", "error"}
+METRIC_MACROS = {"counter", "gauge", "histogram"}
 
 
 def drop_logging(text: str) -> Tuple[str, int]:
@@ -417,6 +418,30 @@ def drop_logging(text: str) -> Tuple[str, int]:
     i = 0
     while i < len(toks) - 2:
         t = toks[i]
+        if t.kind == "id" and t.text in METRIC_MACROS and toks[i + 1].text == "!" and toks[i + 2].text == "(" and not (i > 0 and toks[i - 1].text == "."):
+            # metrics::counter!(...).increment(1);  gauge!(..).set(x);  histogram!(..).record(x);
+            close = match_close(toks, i + 2)
+            s0 = i
+            if s0 >= 3 and toks[s0 - 1].text == ":" and toks[s0 - 2].text == ":" and toks[s0 - 3].kind == "id":
+                s0 -= 3
+            e = close
+            ok = True
+            while e + 3 < len(toks) and toks[e + 1].text == "." and toks[e + 2].kind == "id" and toks[e + 3].text == "(":
+                if toks[e + 2].text not in ("increment", "set", "record", "decrement", "absolute"):
+                    ok = False
+                    break
+                e = match_close(toks, e + 3)
+            args = toks[i + 3:e]
+            if any((a.kind == "punct" and a.text == "?") or (a.kind == "id" and a.text == "await") for a in args):
+                raise ExtractError("metrics macro with `?`/.await in arguments at offset %d" % t.start)
+            if ok and e + 1 < len(toks) and toks[e + 1].text == ";":
+                cuts.append((toks[s0].start, toks[e + 1].end))
+                i = e + 2
+                continue
+            if ok:
+                cuts.append((toks[s0].start, -toks[e].end))
+                i = e + 1
+                continue
         if t.kind == "id" and t.text in LOG_MACROS and toks[i + 1].text == "!" and toks[i + 2].text == "(":
             # not a method / field named the same: previous token must not be `.`
             if i > 0 and toks[i - 1].text == ".":
@@ -530,3 +555,46 @@ def statement_starts(text: str, prefix: str) -> List[int]:
             if prev in ("{", "}", ";", ",") or (prev == ">" and i > 1 and toks[i - 2].text == "="):
                 out.append(toks[i].start)
     return out
+
+
+def for_to_while(text: str, k: int, seq_tpl: str, elem_tpl: str) -> str:
+    """Rewrite the k-th loop (which must be a `for PAT in EXPR {`) into an index loop over a
+    materialised sequence:
+
+        let __s_k = <seq_tpl with $iter>;  let mut __i_k: usize = 0;
+        while __i_k < __s_k.len() {  let PAT = <elem_tpl with $s,$i>;  __i_k += 1;  ...body... }
+
+    The increment sits at the top of the body so `continue` keeps its meaning."""
+    toks = tokenize(text)
+    heads = loop_headers(text)
+    if len(heads) < k:
+        raise ExtractError("for2while: loop %d not found" % k)
+    brace_off, kw = heads[k - 1]
+    if kw != "for":
+        raise ExtractError("for2while: loop %d is a `%s`, not a `for`" % (k, kw))
+    # locate the `for` token belonging to this header: last `for` before brace_off that is a loop header
+    bi = next(i for i, t in enumerate(toks) if t.start == brace_off)
+    fi = bi
+    while fi >= 0 and not (toks[fi].kind == "id" and toks[fi].text == "for"):
+        fi -= 1
+    # find `in` at depth 0 between fi and bi
+    j = fi + 1
+    in_i = None
+    while j < bi:
+        tj = toks[j]
+        if tj.kind == "punct" and tj.text in OPEN:
+            j = match_close(toks, j)
+        elif tj.kind == "id" and tj.text == "in":
+            in_i = j
+            break
+        j += 1
+    if in_i is None:
+        raise ExtractError("for2while: no `in` in loop header %d" % k)
+    pat = text[toks[fi + 1].start:toks[in_i - 1].end]
+    it = text[toks[in_i + 1].start:toks[bi - 1].end]
+    s_name, i_name = "__s_%d" % k, "__i_%d" % k
+    seq = seq_tpl.replace("$iter", it)
+    elem = elem_tpl.replace("$s", s_name).replace("$i", i_name)
+    head = "let %s = %s; let mut %s: usize = 0;\nwhile %s < %s.len() " % (s_name, seq, i_name, i_name, s_name)
+    first = "{ let %s = %s; %s += 1;" % (pat, elem, i_name)
+    return text[:toks[fi].start] + head + first + text[toks[bi].end:]
